@@ -56,7 +56,7 @@ func drawCalls(t *tape.Tape, family string) []jsCall {
 		c := jsCall{}
 		c.ctx = t.Weighted("js.ctx", 3, 2) == 1
 		kinds := []string{"echo", "concat", "sum", "arr", "obj", "probe", "probe", "probe", "node", "nan", "inf", "null", "undef", "throw", "syntax", "oddargs",
-			"throwstr", "posinf", "nested", "objnull", "arrnull", "booleq", "echo"}
+			"throwstr", "posinf", "nested", "objnull", "arrnull", "booleq", "echo", "mathfloor", "neginf2"}
 		c.kind = kinds[t.Intn("js.kind", len(kinds))]
 		if c.kind == "node" {
 			c.ctx = true
@@ -70,11 +70,28 @@ func drawCalls(t *tape.Tape, family string) []jsCall {
 			n = 2
 		}
 		perm := append([]string{}, jsUniverse...)
+		if t.Chance("js.builtin-name", 1, 12) {
+			// an argument named like a JavaScript built-in (legal: it shadows the built-in for this call)
+			perm[0] = "Math"
+			if n < 1 {
+				n = 1
+			}
+		}
 		for i := 0; i < n; i++ {
 			j := i + t.Intn("js.name", len(perm)-i)
 			perm[i], perm[j] = perm[j], perm[i]
 		}
 		c.names = perm[:n]
+		if c.kind == "mathfloor" || c.kind == "neginf2" {
+			// these scripts use the built-in Math themselves: no argument of THIS call may shadow it
+			var keep []string
+			for _, nm := range c.names {
+				if nm != "Math" {
+					keep = append(keep, nm)
+				}
+			}
+			c.names = keep
+		}
 		for range c.names {
 			c.vals = append(c.vals, drawJSValue(t))
 		}
@@ -139,6 +156,10 @@ func (c jsCall) script() string {
 		return "[null, " + c.names[0] + "]"
 	case "booleq":
 		return c.names[0] + " === " + c.names[0]
+	case "mathfloor":
+		return "Math.floor(7.5)"
+	case "neginf2":
+		return "Math.log(0)"
 	case "syntax":
 		return "var;"
 	case "oddargs":
@@ -210,6 +231,8 @@ func (c jsCall) expected(nodeJSON string) (val interface{}, isErr bool) {
 		return []interface{}{nil, arg(0)}, false
 	case "booleq":
 		return true, false
+	case "mathfloor":
+		return int64(7), false
 	case "probe":
 		names := append([]string{}, c.names...)
 		sort.Strings(names)
